@@ -9,7 +9,10 @@ use bytes::Bytes;
 use penguin_mux::Datagram;
 use std::sync::Arc;
 use tokio::io::{AsyncBufReadExt, BufReader};
+#[cfg(not(penguin_rs_verif))]
 use tokio::net::UdpSocket;
+#[cfg(penguin_rs_verif)]
+use penguin_simnet::UdpSocket;
 use tracing::{info, trace};
 
 /// Handle a UDP Inet->Inet remote.
